@@ -286,3 +286,531 @@ Proof.
 Qed.
 
 End Run.
+
+(* ---------- the lock tail: IF_ELSE { PUSH1 rcv } { PUSH1 c ; CTV ; PUSH1 refund } ; CHECK_SIG fl ---------- *)
+Section B.
+Variable orc : oracle.
+Variable cfg : config.
+Hypothesis Hsize : 65 <= c_max_item_size cfg.
+Hypothesis Hitems : 4 <= c_max_items cfg.
+
+Notation sub f := (fun t s0 => run_tape orc cfg f t 0 s0).
+
+(* the PVerify oracle answered with a list that is not exactly one item: outside the model *)
+Definition bad_arity (pk sig : bytes) (c0 : cache) : Prop :=
+  exists m l, msg_of (sig_flag sig) c0 = Some m /\
+              orc PVerify [pk; m; firstn 64 sig] = OOk l /\ List.length l <> 1.
+
+Definition verdict_spec (r : auth_result) (P U : Prop) : Prop :=
+  match r with AuthVerdict b _ => b = true <-> P | AuthFuel => False | AuthUnmod _ => U end.
+
+Lemma verdict_spec_iff r (P P' U U' : Prop) :
+  (P <-> P') -> (U -> U') -> verdict_spec r P U -> verdict_spec r P' U'.
+Proof. intros H1 H2. destruct r; simpl; tauto. Qed.
+
+(* what auth_rest does with the outcome of the last script *)
+Definition finish (F prev : nat) (o : outcome unit) : auth_result :=
+  match o with
+  | Done _ _ st' => auth_rest orc cfg F [] prev st'
+  | Raised _ _ st' => AuthVerdict false st'
+  | OutOfFuel => AuthFuel
+  | Unmodelled w => AuthUnmod w
+  end.
+
+Lemma auth_rest_one F s prev st :
+  auth_rest orc cfg F [s] prev st =
+    finish F (fst (next_start st prev s))
+           (run_tape orc cfg F (fst (next_start st prev s)) 0 (snd (next_start st prev s))).
+Proof. reflexivity. Qed.
+
+Lemma arms_small rcv c refund :
+  List.length rcv = 32 -> List.length refund = 32 -> List.length c <= 255 ->
+  (blen (claim_arm rcv) < 65536)%Z /\ (blen (refund_arm_bytes c refund) < 65536)%Z.
+Proof.
+  intros H1 H2 H3. unfold blen, claim_arm, refund_arm_bytes, push1_bytes.
+  rewrite app_length. cbn [List.length]. rewrite H1, H2. lia.
+Qed.
+
+Lemma lock_ifelse_claim f tid st ptr pre tail cond s rcv c refund :
+  tdata st tid = pre ++ ifelse_ops (claim_arm rcv) (refund_arm_bytes c refund) ++ tail ->
+  ptr = List.length pre -> st_stack st = cond :: s -> bytes_to_bool cond = true ->
+  cache_get (st_cache st) returned_key = None ->
+  List.length rcv = 32 -> List.length refund = 32 -> List.length c <= 255 ->
+  List.length s < c_max_items cfg ->
+  interp orc cfg (sub (S (S f))) OP_IF_ELSE {| fr_tid := tid; fr_ptr := ptr |} st =
+    Done tt {| fr_tid := tid;
+               fr_ptr := ptr + List.length (ifelse_ops (claim_arm rcv) (refund_arm_bytes c refund)) |}
+         (with_stack (sub_start st tid (claim_arm rcv)) (rcv :: s)).
+Proof.
+  intros Hd Hp Hs Hb Hret L1 L2 L3 Hsp.
+  destruct (arms_small rcv c refund L1 L2 L3) as [S1 S2].
+  rewrite (if_else_exec orc cfg _ tid st ptr pre _ _ tail cond s Hd Hp S1 S2 Hs).
+  cbv zeta beta. rewrite Hb.
+  rewrite (push1_tape_runs orc cfg f _ _ rcv s).
+  - rewrite propagate_none by exact Hret. reflexivity.
+  - exact (tdata_sub_new (with_stack st s) tid (claim_arm rcv)).
+  - lia.
+  - reflexivity.
+  - unfold fits. lia.
+  - exact Hsp.
+Qed.
+
+Lemma lock_ifelse_refund f tid st ptr pre tail cond s rcv c refund ts thr :
+  tdata st tid = pre ++ ifelse_ops (claim_arm rcv) (refund_arm_bytes c refund) ++ tail ->
+  ptr = List.length pre -> st_stack st = cond :: s -> bytes_to_bool cond = false ->
+  cache_get (st_cache st) returned_key = None ->
+  List.length rcv = 32 -> List.length refund = 32 ->
+  0 < List.length c <= 255 -> List.length c <= c_max_item_size cfg ->
+  S (List.length s) < c_max_items cfg ->
+  cache_get (st_cache st) ts_key = Some (VOne (AInt ts)) ->
+  flag_get (c_flags cfg) thr_key = Some (FVInt thr) ->
+  interp orc cfg (sub (S (S (S (S f))))) OP_IF_ELSE {| fr_tid := tid; fr_ptr := ptr |} st =
+    let fr' := {| fr_tid := tid;
+                  fr_ptr := ptr + List.length (ifelse_ops (claim_arm rcv) (refund_arm_bytes c refund)) |} in
+    if ts_verdict cfg (be_to_Z c) ts thr
+    then Done tt fr' (with_stack (sub_start st tid (refund_arm_bytes c refund)) (refund :: s))
+    else Raised ScriptExecutionError fr' (with_stack (sub_start st tid (refund_arm_bytes c refund)) s).
+Proof.
+  intros Hd Hp Hs Hb Hret L1 L2 L3 Fc Hsp Hts Hthr.
+  destruct (arms_small rcv c refund L1 L2) as [S1 S2]; [lia|].
+  rewrite (if_else_exec orc cfg _ tid st ptr pre _ _ tail cond s Hd Hp S1 S2 Hs).
+  cbv zeta beta. rewrite Hb.
+  rewrite (refund_arm_runs orc cfg f _ _ c refund s ts thr).
+  - destruct (ts_verdict cfg (be_to_Z c) ts thr); [|reflexivity].
+    rewrite propagate_none by exact Hret. reflexivity.
+  - exact (tdata_sub_new (with_stack st s) tid (refund_arm_bytes c refund)).
+  - lia.
+  - lia.
+  - reflexivity.
+  - exact Fc.
+  - unfold fits. lia.
+  - exact Hsp.
+  - exact Hts.
+  - exact Hthr.
+Qed.
+
+(* the closing OP_CHECK_SIG fl of the last script, then the verdict *)
+Lemma check_sig_final F prev f tid st ptr pre fl pk sig c0 :
+  tdata st tid = pre ++ [x23; fl] -> ptr = List.length pre ->
+  st_stack st = [pk; sig] -> List.length pk = 32 -> (List.length sig = 64 \/ List.length sig = 65) ->
+  (forall g, msg_of g (st_cache st) = msg_of g c0) ->
+  verdict_spec (finish F prev (run_tape orc cfg (S (S f)) tid ptr st))
+    (sig_accepts orc cfg pk sig (b2z fl) c0) (bad_arity pk sig c0).
+Proof.
+  intros Hd Hp Hs Hpk Hsig Hmsg.
+  assert (Hd1 : tdata st tid = pre ++ x23 :: [fl]) by exact Hd.
+  rewrite (fetch_at orc cfg _ tid st ptr pre x23 [fl] Hd1 Hp).
+  change (dispatch (N.to_nat (Byte.to_N x23))) with OP_CHECK_SIG.
+  assert (Hda : data_at {| fr_tid := tid; fr_ptr := S ptr |} st = [fl]).
+  { unfold data_at, cur. cbn [fr_tid fr_ptr]. fold (tdata st tid). rewrite Hd. subst ptr.
+    replace (S (List.length pre)) with (List.length (pre ++ [x23])) by (rewrite app_length; simpl; lia).
+    replace (pre ++ [x23; fl]) with ((pre ++ [x23]) ++ [fl]) by (rewrite <- app_assoc; reflexivity).
+    apply skipn_after. }
+  rewrite (check_sig_decomposed orc cfg _ _ st fl [] Hda).
+  rewrite (check_sig_body_exact orc cfg _ (b2z fl) _ (sigext_log cfg st) pk sig []) by exact Hs.
+  cbv zeta. unfold blen. rewrite Hpk. change (Z.of_nat 32 =? 32)%Z with true. cbn [negb].
+  assert (Hs2 : ((Z.of_nat (List.length sig) =? 64) || (Z.of_nat (List.length sig) =? 65))%Z = true).
+  { destruct Hsig as [->| ->]; reflexivity. }
+  rewrite Hs2. cbn [negb].
+  change (st_cache (sigext_log cfg st)) with (st_cache st). rewrite Hmsg.
+  unfold sig_accepts, bad_arity.
+  destruct (flags_permitted (sig_flag sig) (b2z fl)) eqn:Ef; cbn [negb].
+  2:{ simpl. split; [discriminate|]. intros [H _]. discriminate. }
+  destruct (msg_of (sig_flag sig) c0) as [m|] eqn:Em.
+  2:{ simpl. split; [discriminate|]. intros (_ & m & x & H & _). discriminate. }
+  cbn [List.length].
+  replace (c_max_items cfg <=? 0) with false by (symmetry; apply Nat.leb_gt; lia).
+  rewrite orb_false_r.
+  destruct (c_max_item_size cfg <? List.length m) eqn:El.
+  { apply Nat.ltb_lt in El. simpl. split; [discriminate|]. intros (_ & m' & x & H & Hlen & _).
+    injection H as <-. lia. }
+  apply Nat.ltb_ge in El.
+  match goal with |- context [orc PVerify ?a] => destruct (orc PVerify a) as [[|x [|y l]]|e] eqn:Eo end.
+  - simpl. exists m, []. split; [reflexivity|]. split; [exact Eo|]. simpl. lia.
+  - replace (c_max_item_size cfg <? 1) with false by (symmetry; apply Nat.ltb_ge; lia).
+    cbn [fr_ptr].
+    rewrite run_tape_end.
+    2:{ match goal with |- List.length (tdata ?s tid) <= _ => change (tdata s tid) with (tdata st tid) end.
+        rewrite Hd, app_length. unfold adv. cbn [fr_ptr]. subst ptr. simpl. lia. }
+    unfold finish. cbn [auth_rest st_stack with_stack verdict_spec].
+    destruct (bytes_to_bool x) eqn:Eb.
+    + split; [intros _|reflexivity]. split; [reflexivity|]. exists m, x.
+      split; [reflexivity|]. split; [exact El|]. split; [exact Eo|exact Eb].
+    + split; [discriminate|]. intros (_ & m' & x' & H1 & _ & H2 & H3).
+      injection H1 as <-. assert (Hx : OOk [x'] = OOk [x]) by (rewrite <- H2; exact Eo).
+      injection Hx as <-. congruence.
+  - simpl. exists m, (x :: y :: l). split; [reflexivity|]. split; [exact Eo|]. simpl. lia.
+  - simpl. split; [discriminate|]. intros (_ & m' & x & H1 & _ & H2 & _).
+    injection H1 as <-. assert (Hx : OOk [x] = OErr e) by (rewrite <- H2; exact Eo). discriminate.
+Qed.
+
+(* IF_ELSE ... ; CHECK_SIG fl   run on a stack [cond; sig] *)
+Lemma lock_tail F prev f tid st ptr pre cond sig rcv c refund fl ts thr c0 :
+  tdata st tid = pre ++ x2c :: ifelse_ops (claim_arm rcv) (refund_arm_bytes c refund) ++ [x23; fl] ->
+  ptr = List.length pre -> tid < List.length (st_tapes st) ->
+  st_stack st = [cond; sig] ->
+  cache_get (st_cache st) returned_key = None ->
+  (forall g, msg_of g (st_cache st) = msg_of g c0) ->
+  List.length rcv = 32 -> List.length refund = 32 -> List.length c <= 255 ->
+  (List.length sig = 64 \/ List.length sig = 65) ->
+  (bytes_to_bool cond = false ->
+     0 < List.length c /\ List.length c <= c_max_item_size cfg /\
+     cache_get (st_cache st) ts_key = Some (VOne (AInt ts)) /\
+     flag_get (c_flags cfg) thr_key = Some (FVInt thr)) ->
+  verdict_spec (finish F prev (run_tape orc cfg (S (S (S (S (S f))))) tid ptr st))
+    (if bytes_to_bool cond then sig_accepts orc cfg rcv sig (b2z fl) c0
+     else ts_verdict cfg (be_to_Z c) ts thr = true /\ sig_accepts orc cfg refund sig (b2z fl) c0)
+    (if bytes_to_bool cond then bad_arity rcv sig c0
+     else ts_verdict cfg (be_to_Z c) ts thr = true /\ bad_arity refund sig c0).
+Proof.
+  intros Hd Hp Hlt Hs Hret Hmsg L1 L2 L3 Lsig Hts.
+  rewrite (fetch_at orc cfg _ tid st ptr pre x2c _ Hd Hp).
+  change (dispatch (N.to_nat (Byte.to_N x2c))) with OP_IF_ELSE.
+  set (ops := ifelse_ops (claim_arm rcv) (refund_arm_bytes c refund)) in *.
+  assert (Hd1 : tdata st tid = (pre ++ [x2c]) ++ ops ++ [x23; fl]).
+  { rewrite Hd, <- app_assoc. reflexivity. }
+  assert (Hp1 : S ptr = List.length (pre ++ [x2c])) by (rewrite app_length; simpl; lia).
+  assert (Hfin : forall body stk, tdata (with_stack (sub_start st tid body) stk) tid = ((pre ++ [x2c]) ++ ops) ++ [x23; fl]).
+  { intros body stk. change (tdata (with_stack (sub_start st tid body) stk) tid) with (tdata (sub_start st tid body) tid).
+    rewrite tdata_sub_old by exact Hlt. rewrite Hd1, (app_assoc (pre ++ [x2c]) ops). reflexivity. }
+  assert (Hp2 : S ptr + List.length ops = List.length ((pre ++ [x2c]) ++ ops)).
+  { rewrite (app_length (pre ++ [x2c])). lia. }
+  destruct (bytes_to_bool cond) eqn:Eb.
+  - unfold ops in Hd1.
+    rewrite (lock_ifelse_claim _ tid st (S ptr) (pre ++ [x2c]) [x23; fl] cond [sig] rcv c refund Hd1 Hp1 Hs Eb Hret L1 L2 L3)
+      by (simpl; lia).
+    cbn [fr_ptr]. fold ops.
+    apply (check_sig_final F prev _ tid _ _ ((pre ++ [x2c]) ++ ops) fl rcv sig c0); try assumption.
+    + apply Hfin.
+    + reflexivity.
+  - destruct (Hts eq_refl) as (C1 & C2 & C3 & C4). unfold ops in Hd1.
+    rewrite (lock_ifelse_refund _ tid st (S ptr) (pre ++ [x2c]) [x23; fl] cond [sig] rcv c refund ts thr
+               Hd1 Hp1 Hs Eb Hret L1 L2); try assumption; try lia.
+    2:{ simpl. lia. }
+    cbv zeta. fold ops.
+    destruct (ts_verdict cfg (be_to_Z c) ts thr) eqn:Etv.
+    + cbn [fr_ptr].
+      eapply verdict_spec_iff;
+        [ | | apply (check_sig_final F prev _ tid _ _ ((pre ++ [x2c]) ++ ops) fl refund sig c0); try assumption ].
+      * tauto.
+      * tauto.
+      * apply Hfin.
+      * reflexivity.
+    + simpl. split; [discriminate|]. intros [H _]. discriminate.
+Qed.
+
+(* ---------- the witnesses ---------- *)
+
+Lemma flag_witness_runs f sig op v vals :
+  dispatch (N.to_nat (Byte.to_N op)) = put [v] ->
+  (List.length sig = 64 \/ List.length sig = 65) ->
+  run_script orc cfg (S (S (S f))) (push1_bytes sig ++ [op]) vals =
+    Done tt {| fr_tid := 0; fr_ptr := 3 + List.length sig |}
+         (with_stack (init_state cfg (push1_bytes sig ++ [op]) vals) [[v]; sig]).
+Proof.
+  intros Hop Hl. unfold run_script.
+  set (st0 := init_state cfg (push1_bytes sig ++ [op]) vals).
+  assert (Hd0 : tdata st0 0 = [] ++ x03 :: (z2b (blen sig) :: sig ++ [op])) by reflexivity.
+  rewrite (fetch_at orc cfg _ 0 st0 0 [] x03 _ Hd0 eq_refl).
+  change (dispatch (N.to_nat (Byte.to_N x03))) with OP_PUSH1.
+  rewrite (push1_at orc cfg _ 0 st0 1 [x03] sig [op] [] Hd0 eq_refl);
+    [ | lia | reflexivity | unfold fits; lia | unfold space; simpl; lia ].
+  cbn [fr_ptr].
+  set (st1 := with_stack st0 [sig]).
+  assert (Hd1 : tdata st1 0 = push1_bytes sig ++ op :: []) by reflexivity.
+  rewrite (fetch_at orc cfg _ 0 st1 _ (push1_bytes sig) op [] Hd1) by reflexivity.
+  rewrite Hop. unfold put, act.
+  rewrite (put_step orc cfg _ _ _ _ st1 [v] [sig]);
+    [ | reflexivity | unfold fits; simpl; lia | unfold space; simpl; lia ].
+  cbn [interp fr_ptr].
+  rewrite run_tape_end.
+  - reflexivity.
+  - match goal with |- List.length (tdata ?s 0) <= _ => change (tdata s 0) with (push1_bytes sig ++ [op]) end.
+    rewrite app_length. simpl. lia.
+Qed.
+
+Lemma htlc_witness_runs f sig pre vals :
+  (List.length sig = 64 \/ List.length sig = 65) ->
+  List.length pre < 256 -> List.length pre <= c_max_item_size cfg ->
+  run_script orc cfg (S (S (S f))) (push1_bytes sig ++ push1_bytes pre) vals =
+    Done tt {| fr_tid := 0; fr_ptr := 4 + List.length sig + List.length pre |}
+         (with_stack (init_state cfg (push1_bytes sig ++ push1_bytes pre) vals) [pre; sig]).
+Proof.
+  intros Hl Hp1 Hp2. unfold run_script.
+  set (st0 := init_state cfg (push1_bytes sig ++ push1_bytes pre) vals).
+  assert (Hd0 : tdata st0 0 = [] ++ x03 :: (z2b (blen sig) :: sig ++ push1_bytes pre)) by reflexivity.
+  rewrite (fetch_at orc cfg _ 0 st0 0 [] x03 _ Hd0 eq_refl).
+  change (dispatch (N.to_nat (Byte.to_N x03))) with OP_PUSH1.
+  rewrite (push1_at orc cfg _ 0 st0 1 [x03] sig (push1_bytes pre) [] Hd0 eq_refl);
+    [ | lia | reflexivity | unfold fits; lia | unfold space; simpl; lia ].
+  cbn [fr_ptr].
+  set (st1 := with_stack st0 [sig]).
+  assert (Hd1 : tdata st1 0 = push1_bytes sig ++ x03 :: (z2b (blen pre) :: pre ++ [])).
+  { rewrite app_nil_r. reflexivity. }
+  rewrite (fetch_at orc cfg _ 0 st1 _ (push1_bytes sig) x03 _ Hd1) by reflexivity.
+  change (dispatch (N.to_nat (Byte.to_N x03))) with OP_PUSH1.
+  assert (Hd2 : tdata st1 0 = (push1_bytes sig ++ [x03]) ++ z2b (blen pre) :: pre ++ []).
+  { rewrite Hd1, <- app_assoc. reflexivity. }
+  rewrite (push1_at orc cfg _ 0 st1 _ _ pre [] [sig] Hd2);
+    [ | rewrite app_length; simpl; lia | exact Hp1 | reflexivity | exact Hp2 | unfold space; simpl; lia ].
+  cbn [fr_ptr].
+  rewrite run_tape_end.
+  - f_equal. f_equal. lia.
+  - match goal with |- List.length (tdata ?s 0) <= _ =>
+      change (tdata s 0) with (push1_bytes sig ++ push1_bytes pre) end.
+    rewrite app_length. simpl. lia.
+Qed.
+
+(* ---------- SHA256 / SHAKE256 / EQUAL with known operands ---------- *)
+
+Lemma sha256_exec run fr st x s h :
+  st_stack st = x :: s -> orc PSha256 [x] = OOk [h] -> fits cfg h -> space cfg s ->
+  interp orc cfg run OP_SHA256 fr st = Done tt fr (with_stack st (h :: s)).
+Proof.
+  intros Hs Ho Hf Hsp. unfold OP_SHA256, get, put, act. cbn [bind].
+  rewrite (get_step orc cfg run _ _ fr st x s Hs).
+  rewrite (prim1_step orc cfg run _ _ PSha256 [x] h _ _ Ho).
+  rewrite (put_step orc cfg run _ _ _ _ h s); [reflexivity|reflexivity|exact Hf|exact Hsp].
+Qed.
+
+Lemma shake256_exec run tid ptr st (pre : bytes) n tail x s h :
+  tdata st tid = pre ++ n :: tail -> ptr = List.length pre ->
+  st_stack st = x :: s -> orc PShake256 [x; [n]] = OOk [h] -> fits cfg h -> space cfg s ->
+  interp orc cfg run OP_SHAKE256 {| fr_tid := tid; fr_ptr := ptr |} st =
+    Done tt {| fr_tid := tid; fr_ptr := ptr + 1 |} (with_stack st (h :: s)).
+Proof.
+  intros Hd Hp Hs Ho Hf Hsp. unfold OP_SHAKE256, read_u8, read, get, put, act. cbn [bind].
+  assert (Hd' : tdata st tid = pre ++ [n] ++ tail) by exact Hd.
+  rewrite (read_at orc cfg run _ _ tid ptr st pre [n] tail 1 Hd' Hp eq_refl).
+  cbn [bind List.length]. rewrite be1, z2b_b2z.
+  rewrite (get_step orc cfg run _ _ _ st x s Hs).
+  rewrite (prim1_step orc cfg run _ _ PShake256 [x; [n]] h _ _ Ho).
+  rewrite (put_step orc cfg run _ _ _ _ h s); [reflexivity|reflexivity|exact Hf|exact Hsp].
+Qed.
+
+Lemma equal_exec run fr st a b s :
+  st_stack st = a :: b :: s -> room cfg s ->
+  interp orc cfg run OP_EQUAL fr st =
+    Done tt fr (with_stack st ((if bytes_eqb a b then [xff] else [x00]) :: s)).
+Proof.
+  intros Hs Hr. unfold OP_EQUAL, put_bool, get, put, act. cbn [bind].
+  rewrite (get_step orc cfg run _ _ fr st a (b :: s) Hs).
+  rewrite (get_step orc cfg run _ _ fr (with_stack st (b :: s)) b s eq_refl).
+  destruct (bytes_eqb a b);
+    (rewrite (put1 orc cfg run) with (rest := s); [reflexivity|exact Hr|reflexivity]).
+Qed.
+
+(* PUSH1 digest ; EQUAL ; IF_ELSE ... ; CHECK_SIG fl   run on a stack [h; sig] *)
+Lemma htlc_tail F prev f tid st ptr pre0 h digest sig rcv c refund fl ts thr c0 :
+  tdata st tid = pre0 ++ push1_bytes digest ++
+                 x21 :: x2c :: ifelse_ops (claim_arm rcv) (refund_arm_bytes c refund) ++ [x23; fl] ->
+  ptr = List.length pre0 -> tid < List.length (st_tapes st) ->
+  st_stack st = [h; sig] ->
+  cache_get (st_cache st) returned_key = None ->
+  (forall g, msg_of g (st_cache st) = msg_of g c0) ->
+  List.length rcv = 32 -> List.length refund = 32 ->
+  0 < List.length c <= 255 -> List.length c <= c_max_item_size cfg ->
+  (List.length sig = 64 \/ List.length sig = 65) ->
+  List.length digest < 256 -> List.length digest <= c_max_item_size cfg ->
+  cache_get (st_cache st) ts_key = Some (VOne (AInt ts)) ->
+  flag_get (c_flags cfg) thr_key = Some (FVInt thr) ->
+  verdict_spec (finish F prev (run_tape orc cfg (S (S (S (S (S (S (S f))))))) tid ptr st))
+    ((h = digest /\ sig_accepts orc cfg rcv sig (b2z fl) c0) \/
+     (h <> digest /\ ts_verdict cfg (be_to_Z c) ts thr = true /\ sig_accepts orc cfg refund sig (b2z fl) c0))
+    ((h = digest /\ bad_arity rcv sig c0) \/
+     (h <> digest /\ ts_verdict cfg (be_to_Z c) ts thr = true /\ bad_arity refund sig c0)).
+Proof.
+  intros Hd Hp Hlt Hs Hret Hmsg L1 L2 L3 Fc Lsig Ld Fd Hts Hthr.
+  set (ops := ifelse_ops (claim_arm rcv) (refund_arm_bytes c refund)) in *.
+  assert (Hd0 : tdata st tid = pre0 ++ x03 :: (z2b (blen digest) :: digest ++ x21 :: x2c :: ops ++ [x23; fl]))
+    by exact Hd.
+  rewrite (fetch_at orc cfg _ tid st ptr pre0 x03 _ Hd0 Hp).
+  change (dispatch (N.to_nat (Byte.to_N x03))) with OP_PUSH1.
+  assert (Hd1 : tdata st tid = (pre0 ++ [x03]) ++ z2b (blen digest) :: digest ++ x21 :: x2c :: ops ++ [x23; fl]).
+  { rewrite Hd0, <- app_assoc. reflexivity. }
+  rewrite (push1_at orc cfg _ tid st (S ptr) _ digest _ [h; sig] Hd1);
+    [ | rewrite app_length; simpl; lia | exact Ld | exact Hs | exact Fd | unfold space; simpl; lia ].
+  cbn [fr_ptr].
+  set (st1 := with_stack st [digest; h; sig]).
+  assert (Hd2 : tdata st1 tid = (pre0 ++ push1_bytes digest) ++ x21 :: (x2c :: ops ++ [x23; fl])).
+  { change (tdata st1 tid) with (tdata st tid). rewrite Hd, (app_assoc pre0 (push1_bytes digest)). reflexivity. }
+  rewrite (fetch_at orc cfg _ tid st1 _ (pre0 ++ push1_bytes digest) x21 _ Hd2)
+    by (rewrite app_length; simpl; lia).
+  change (dispatch (N.to_nat (Byte.to_N x21))) with OP_EQUAL.
+  rewrite (equal_exec _ _ st1 digest h [sig] eq_refl) by (unfold room; simpl; lia).
+  cbn [fr_ptr].
+  set (cond := if bytes_eqb digest h then [xff] else [x00]).
+  change (with_stack st1 [cond; sig]) with (with_stack st [cond; sig]).
+  set (st2 := with_stack st [cond; sig]).
+  assert (Hd3 : tdata st2 tid = (pre0 ++ push1_bytes digest ++ [x21]) ++ x2c :: ops ++ [x23; fl]).
+  { change (tdata st2 tid) with (tdata st tid). rewrite Hd, <- !app_assoc. reflexivity. }
+  eapply verdict_spec_iff;
+    [ | | apply (lock_tail F prev f tid st2 _ (pre0 ++ push1_bytes digest ++ [x21]) cond sig rcv c refund fl ts thr c0 Hd3);
+          try assumption ].
+  - unfold cond. destruct (bytes_eqb digest h) eqn:E.
+    + apply bytes_eqb_eq in E. change (bytes_to_bool [xff]) with true. cbv iota. symmetry in E. tauto.
+    + assert (h <> digest) by (intro Heq; subst h; rewrite bytes_eqb_refl in E; discriminate).
+      change (bytes_to_bool [x00]) with false. cbv iota. tauto.
+  - unfold cond. destruct (bytes_eqb digest h) eqn:E.
+    + apply bytes_eqb_eq in E. change (bytes_to_bool [xff]) with true. cbv iota. symmetry in E. tauto.
+    + assert (h <> digest) by (intro Heq; subst h; rewrite bytes_eqb_refl in E; discriminate).
+      change (bytes_to_bool [x00]) with false. cbv iota. tauto.
+  - rewrite !app_length. unfold push1_bytes. simpl. lia.
+  - reflexivity.
+  - lia.
+  - intros _. repeat split; try assumption; lia.
+Qed.
+
+(* ---------- the start of the lock script (second script of the pair) ---------- *)
+
+Lemma lock_start (w lock : bytes) vals stk :
+  let st1 := with_stack (init_state cfg w vals) stk in
+  let tid := fst (next_start st1 0 lock) in
+  let st2 := snd (next_start st1 0 lock) in
+  tdata st2 tid = lock /\ tid < List.length (st_tapes st2) /\ st_stack st2 = stk /\
+  cache_get (st_cache st2) returned_key = None /\
+  (forall g, msg_of g (st_cache st2) = msg_of g (init_cache cfg vals)) /\
+  (forall ts, cache_get (init_cache cfg vals) ts_key = Some (VOne (AInt ts)) ->
+              cache_get (st_cache st2) ts_key = Some (VOne (AInt ts))).
+Proof.
+  cbv zeta. split; [reflexivity|]. split; [simpl; lia|]. split; [reflexivity|].
+  split; [apply cache_get_del_same|]. split.
+  - intro g. apply msg_of_del_returned.
+  - intros ts H. cbn [next_start snd st_cache with_cache with_tapes with_stack init_state].
+    rewrite cache_get_del_other by reflexivity. exact H.
+Qed.
+
+(* ---------- the theorems ---------- *)
+
+(* 1. PTLC, claim path: witness PUSH1 sig ; TRUE  —  at any time *)
+Theorem ptlc_claim_exact f rcv c refund sig fl vals :
+  List.length rcv = 32 -> List.length refund = 32 -> List.length c <= 255 ->
+  (List.length sig = 64 \/ List.length sig = 65) ->
+  verdict_spec
+    (run_auth_scripts orc cfg (S (S (S (S (S f))))) [ptlc_claim_witness sig; ptlc_lock rcv c refund fl] vals)
+    (sig_accepts orc cfg rcv sig (b2z fl) (init_cache cfg vals))
+    (bad_arity rcv sig (init_cache cfg vals)).
+Proof.
+  intros L1 L2 L3 Lsig.
+  unfold run_auth_scripts. rewrite ptlc_claim_witness_bytes.
+  rewrite (flag_witness_runs (S (S f)) sig x01 xff vals eq_refl Lsig).
+  rewrite auth_rest_one.
+  destruct (lock_start (push1_bytes sig ++ [x01]) (ptlc_lock rcv c refund fl) vals [[xff]; sig])
+    as (Hd & Hlt & Hs & Hret & Hmsg & _).
+  rewrite ptlc_lock_bytes in Hd.
+  pose proof (lock_tail _ _ f _ _ 0 [] [xff] sig rcv c refund fl 0%Z 0%Z (init_cache cfg vals)
+                Hd eq_refl Hlt Hs Hret Hmsg L1 L2 L3 Lsig) as H.
+  change (bytes_to_bool [xff]) with true in H. cbv iota in H.
+  apply H. intro E. discriminate E.
+Qed.
+
+(* 2. PTLC, refund path: witness PUSH1 sig ; FALSE *)
+Theorem ptlc_refund_exact f rcv c refund sig fl vals ts thr :
+  List.length rcv = 32 -> List.length refund = 32 ->
+  2 <= List.length c <= 255 -> List.length c <= c_max_item_size cfg ->
+  (List.length sig = 64 \/ List.length sig = 65) ->
+  cache_get (init_cache cfg vals) ts_key = Some (VOne (AInt ts)) ->
+  flag_get (c_flags cfg) thr_key = Some (FVInt thr) ->
+  verdict_spec
+    (run_auth_scripts orc cfg (S (S (S (S (S f))))) [ptlc_refund_witness sig; ptlc_lock rcv c refund fl] vals)
+    (ts_verdict cfg (be_to_Z c) ts thr = true /\ sig_accepts orc cfg refund sig (b2z fl) (init_cache cfg vals))
+    (ts_verdict cfg (be_to_Z c) ts thr = true /\ bad_arity refund sig (init_cache cfg vals)).
+Proof.
+  intros L1 L2 L3 Fc Lsig Hts Hthr.
+  unfold run_auth_scripts. rewrite ptlc_refund_witness_bytes.
+  rewrite (flag_witness_runs (S (S f)) sig x00 x00 vals eq_refl Lsig).
+  rewrite auth_rest_one.
+  destruct (lock_start (push1_bytes sig ++ [x00]) (ptlc_lock rcv c refund fl) vals [[x00]; sig])
+    as (Hd & Hlt & Hs & Hret & Hmsg & Hts2).
+  rewrite ptlc_lock_bytes in Hd.
+  assert (L3' : List.length c <= 255) by lia.
+  pose proof (lock_tail _ _ f _ _ 0 [] [x00] sig rcv c refund fl ts thr (init_cache cfg vals)
+                Hd eq_refl Hlt Hs Hret Hmsg L1 L2 L3' Lsig) as H.
+  change (bytes_to_bool [x00]) with false in H. cbv iota in H.
+  apply H. intros _. split; [lia|]. split; [exact Fc|]. split; [apply Hts2; exact Hts|exact Hthr].
+Qed.
+
+(* 3. HTLC (sha256): witness PUSH1 sig ; PUSH1 preimage *)
+Theorem htlc_sha256_exact f digest rcv c refund sig preimage h fl vals ts thr :
+  List.length rcv = 32 -> List.length refund = 32 ->
+  2 <= List.length c <= 255 -> List.length c <= c_max_item_size cfg ->
+  (List.length sig = 64 \/ List.length sig = 65) ->
+  List.length digest = 32 -> List.length h = 32 ->
+  List.length preimage < 256 -> List.length preimage <= c_max_item_size cfg ->
+  orc PSha256 [preimage] = OOk [h] ->
+  cache_get (init_cache cfg vals) ts_key = Some (VOne (AInt ts)) ->
+  flag_get (c_flags cfg) thr_key = Some (FVInt thr) ->
+  let c0 := init_cache cfg vals in
+  verdict_spec
+    (run_auth_scripts orc cfg (S (S (S (S (S (S (S (S f))))))))
+       [htlc_witness sig preimage; htlc_sha256_lock digest rcv c refund fl] vals)
+    ((h = digest /\ sig_accepts orc cfg rcv sig (b2z fl) c0) \/
+     (h <> digest /\ ts_verdict cfg (be_to_Z c) ts thr = true /\ sig_accepts orc cfg refund sig (b2z fl) c0))
+    ((h = digest /\ bad_arity rcv sig c0) \/
+     (h <> digest /\ ts_verdict cfg (be_to_Z c) ts thr = true /\ bad_arity refund sig c0)).
+Proof.
+  intros L1 L2 L3 Fc Lsig Ld Lh Lp Fp Ho Hts Hthr c0.
+  unfold run_auth_scripts. rewrite htlc_witness_bytes.
+  rewrite (htlc_witness_runs _ sig preimage vals Lsig Lp Fp).
+  rewrite auth_rest_one.
+  destruct (lock_start (push1_bytes sig ++ push1_bytes preimage) (htlc_sha256_lock digest rcv c refund fl)
+              vals [preimage; sig]) as (Hd & Hlt & Hs & Hret & Hmsg & Hts2).
+  rewrite htlc_sha256_lock_bytes in Hd.
+  set (tid := fst (next_start _ 0 _)) in *. set (st2 := snd (next_start _ 0 _)) in *.
+  set (ops := ifelse_ops (claim_arm rcv) (refund_arm_bytes c refund)) in *.
+  assert (Hd0 : tdata st2 tid = [] ++ x1e :: (push1_bytes digest ++ x21 :: x2c :: ops ++ [x23; fl])).
+  { rewrite Hd. cbn [app]. rewrite <- app_assoc. reflexivity. }
+  rewrite (fetch_at orc cfg _ tid st2 0 [] x1e _ Hd0 eq_refl).
+  change (dispatch (N.to_nat (Byte.to_N x1e))) with OP_SHA256.
+  rewrite (sha256_exec _ _ st2 preimage [sig] h Hs Ho) by (unfold fits, space; simpl; lia).
+  cbn [fr_ptr].
+  apply (htlc_tail _ _ f tid _ 1 [x1e] h digest sig rcv c refund fl ts thr c0); try assumption;
+    try reflexivity; try lia.
+  - exact Hd0.
+  - apply Hts2. exact Hts.
+Qed.
+
+(* 4. HTLC (shake256, digest size n) *)
+Theorem htlc_shake256_exact f n digest rcv c refund sig preimage h fl vals ts thr :
+  List.length rcv = 32 -> List.length refund = 32 ->
+  2 <= List.length c <= 255 -> List.length c <= c_max_item_size cfg ->
+  (List.length sig = 64 \/ List.length sig = 65) ->
+  List.length digest < 256 -> List.length digest <= c_max_item_size cfg ->
+  List.length h <= c_max_item_size cfg ->
+  List.length preimage < 256 -> List.length preimage <= c_max_item_size cfg ->
+  orc PShake256 [preimage; [n]] = OOk [h] ->
+  cache_get (init_cache cfg vals) ts_key = Some (VOne (AInt ts)) ->
+  flag_get (c_flags cfg) thr_key = Some (FVInt thr) ->
+  let c0 := init_cache cfg vals in
+  verdict_spec
+    (run_auth_scripts orc cfg (S (S (S (S (S (S (S (S f))))))))
+       [htlc_witness sig preimage; htlc_shake256_lock n digest rcv c refund fl] vals)
+    ((h = digest /\ sig_accepts orc cfg rcv sig (b2z fl) c0) \/
+     (h <> digest /\ ts_verdict cfg (be_to_Z c) ts thr = true /\ sig_accepts orc cfg refund sig (b2z fl) c0))
+    ((h = digest /\ bad_arity rcv sig c0) \/
+     (h <> digest /\ ts_verdict cfg (be_to_Z c) ts thr = true /\ bad_arity refund sig c0)).
+Proof.
+  intros L1 L2 L3 Fc Lsig Ld Fd Fh Lp Fp Ho Hts Hthr c0.
+  unfold run_auth_scripts. rewrite htlc_witness_bytes.
+  rewrite (htlc_witness_runs _ sig preimage vals Lsig Lp Fp).
+  rewrite auth_rest_one.
+  destruct (lock_start (push1_bytes sig ++ push1_bytes preimage) (htlc_shake256_lock n digest rcv c refund fl)
+              vals [preimage; sig]) as (Hd & Hlt & Hs & Hret & Hmsg & Hts2).
+  rewrite htlc_shake256_lock_bytes in Hd.
+  set (tid := fst (next_start _ 0 _)) in *. set (st2 := snd (next_start _ 0 _)) in *.
+  set (ops := ifelse_ops (claim_arm rcv) (refund_arm_bytes c refund)) in *.
+  assert (Hd0 : tdata st2 tid = [] ++ x1f :: (n :: push1_bytes digest ++ x21 :: x2c :: ops ++ [x23; fl])).
+  { rewrite Hd. cbn [app]. rewrite <- app_assoc. reflexivity. }
+  rewrite (fetch_at orc cfg _ tid st2 0 [] x1f _ Hd0 eq_refl).
+  change (dispatch (N.to_nat (Byte.to_N x1f))) with OP_SHAKE256.
+  assert (Hd1 : tdata st2 tid = [x1f] ++ n :: (push1_bytes digest ++ x21 :: x2c :: ops ++ [x23; fl])) by exact Hd0.
+  rewrite (shake256_exec _ tid 1 st2 [x1f] n _ preimage [sig] h Hd1 eq_refl Hs Ho)
+    by (unfold fits, space; simpl; lia).
+  cbn [fr_ptr].
+  apply (htlc_tail _ _ f tid _ 2 [x1f; n] h digest sig rcv c refund fl ts thr c0); try assumption;
+    try reflexivity; try lia.
+  - exact Hd0.
+  - apply Hts2. exact Hts.
+Qed.
+
+End B.
